@@ -10,6 +10,8 @@
 -/
 import DateutilVerif.Proofs.RDAlgebra
 import DateutilVerif.Proofs.RDGenEq
+import DateutilVerif.Model.RDHistory
+import DateutilVerif.Proofs.RDScale
 
 namespace C16
 open RDM RDP
@@ -362,6 +364,267 @@ theorem constructor_gen (kw : Kw) (d : RD) :
     exact (every_op_normalised d d 0 kw 0 0 0).2.2.2.2.2.2 r h
   · intro h; rw [RDG.initKw_eq]; exact mk_fields_id d h
 
+/-! ## the history of ONE object (a relativedelta is mutable: `weeks` setter, attribute assignment)
+
+The property quantifies over values "however constructed or combined".  An object that was used (added to a date, hashed,
+compared …), then mutated, then used again must answer like the value its CURRENT fields denote: nothing that a use
+computed may survive into the next use.  `RDH.run` (Model/RDHistory.lean) is the life of one object over the methods
+re-translated from /repo on this run; that a use leaves the record alone is read off the source on every run (AST audit
+`rdlib.write_audit`: no method writes an attribute outside `__init__` / `_fix` / `_set_months` / the `weeks` setter). -/
+
+open RDH in
+/-- the record after a history is the record after its mutations alone: uses leave no trace in the state -/
+theorem history_state (d : RD) (h : List Step) : (run d h).1 = stateAfter d (muts h) := by
+  induction h generalizing d with
+  | nil => rfl
+  | cons s rest ih =>
+    cases s with
+    | use u => simp only [run, step, muts]; exact ih d
+    | set m => simp only [run, step, muts, stateAfter, List.foldl]; exact ih (applyMut d m)
+
+open RDH in
+theorem history_append (d : RD) (h1 h2 : List Step) :
+    run d (h1 ++ h2) = ((run (run d h1).1 h2).1, (run d h1).2 ++ (run (run d h1).1 h2).2) := by
+  induction h1 generalizing d with
+  | nil => simp [run]
+  | cons s rest ih =>
+    simp only [List.cons_append, run]
+    rw [ih]
+    simp only [List.append_assoc]
+
+open RDH in
+/-- **use_after_set_eq_fresh.** After ANY history `h` (uses and mutations in any order, any length) from any record, the
+    next use of the object returns exactly what the same use returns on a fresh record holding the current field
+    values (`stateAfter d0 (muts h)`: the start record with the history's mutations applied, and nothing else) — the
+    earlier uses, their arguments and their results have no influence; the record itself is unchanged by the use. -/
+theorem use_after_set_eq_fresh (d0 : RD) (h : List Step) (u : Use) :
+    (run d0 (h ++ [.use u])).2 = (run d0 h).2 ++ [observe (stateAfter d0 (muts h)) u] ∧
+    (run d0 (h ++ [.use u])).1 = stateAfter d0 (muts h) := by
+  rw [history_append]
+  simp only [run, step, List.append_nil]
+  rw [history_state]
+  exact ⟨rfl, rfl⟩
+
+open RDH in
+/-- **same_mutations_same_answer.** Two lives of an object that differ only in HOW it was used in between (which uses,
+    how many, on what arguments) give the same answer to the next use. -/
+theorem same_mutations_same_answer (d0 : RD) (h1 h2 : List Step) (u : Use) (hm : muts h1 = muts h2) :
+    (run d0 (h1 ++ [.use u])).2.getLast? = (run d0 (h2 ++ [.use u])).2.getLast? ∧
+    (run d0 (h1 ++ [.use u])).1 = (run d0 (h2 ++ [.use u])).1 := by
+  rw [(use_after_set_eq_fresh d0 h1 u).1, (use_after_set_eq_fresh d0 h2 u).1,
+      (use_after_set_eq_fresh d0 h1 u).2, (use_after_set_eq_fresh d0 h2 u).2, hm]
+  simp
+
+open RDH in
+/-- every observation through the translated methods is the hand model's function of the record -/
+theorem observe_eq_model (d : RD) (u : Use) :
+    observe d u = (match u with
+      | .addDt x => .temporal (applyTo d x)
+      | .raddDt x => .temporal (radd d x)
+      | .rsubDt x => .temporal (rsub d x)
+      | .hash => .hash (.ok (hashList d))
+      | .bool => .bool (.ok (RDM.bool d))
+      | .eq o => .bool (.ok (RDM.eq d o))
+      | .eqRev o => .bool (.ok (RDM.eq o d))
+      | .neg => .rd (.ok (neg d))
+      | .abs => .rd (.ok (RDM.abs d))
+      | .addRd o => .rd (.ok (add d o))
+      | .raddRd o => .rd (.ok (add o d))
+      | .subRd o => .rd (.ok (sub d o))
+      | .mulInt k => .rd (.ok (mulInt d k))
+      | .addTd dd s us => .rd (.ok (addTimedelta d dd s us))
+      | .weeks => .int (weeksOf d)
+      | .normalized => .rd (.ok (normalizedInt d))
+      | .mulDy f => .rd (.ok (mulDyadic d f.m f.k))
+      | .divPow2 p => .rd (.ok (divPow2 d p.neg p.k))) := by
+  cases u <;> simp only [observe, RDG.addDt_eq, RDG.raddDt_eq, RDG.rsubDt_eq, RDG.hashKey_eq, RDG.bool_eq, RDG.eq_eq,
+    RDG.neg_eq, RDG.abs_eq, RDG.addRd_eq, RDG.subRd_eq, RDG.mulInt_eq, RDG.addTd_rd_eq, RDG.normalized_eq, RDG.mulDy_eq,
+    RDG.divPow2_eq]
+
+open RDH in
+/-- **reachable_state_is_constructed.** When the current record is in normal form (what the constructor and the operators
+    return, `every_op_normalised`), the fresh record of `use_after_set_eq_fresh` IS the object the translated
+    constructor builds from the current field values: `relativedelta(**fields)`. -/
+theorem reachable_state_is_constructed (d0 : RD) (h : List Step) (hn : Normalised (stateAfter d0 (muts h))) :
+    Gen.initKw (fieldsOf (stateAfter d0 (muts h))) = .ok (run d0 h).1 := by
+  rw [history_state]; exact (constructor_gen {} _).2.2 hn
+
+open RDH in
+/-- **setWeeks_normalised.** The public `weeks` setter keeps a value a value: only `days` (unbounded in the normal form,
+    not a source of `_has_time`) changes, by a multiple of 7 plus the old remainder. -/
+theorem setWeeks_normalised (d : RD) (v : Int) (h : Normalised d) :
+    Normalised (setWeeks d v) ∧ (setWeeks d v).days = d.days - weeksOf d * 7 + v * 7 ∧
+    { setWeeks d v with days := d.days } = d := by
+  refine ⟨?_, rfl, rfl⟩
+  unfold Normalised setWeeks hasTimeOf at *
+  exact h
+
+open RDH in
+/-- **weeks_setWeeks.** Reading `weeks` back after setting it returns the value set whenever the remainder of the old
+    days and the new weeks do not pull in opposite directions (e.g. `days=-3; weeks=2` gives days = 11, weeks = 1:
+    the code as it is; outside this hypothesis the getter is still `tdiv days 7` of the new days). -/
+theorem weeks_setWeeks (d : RD) (v : Int)
+    (h : (0 ≤ d.days ∧ 0 ≤ v) ∨ (d.days ≤ 0 ∧ v ≤ 0) ∨ d.days % 7 = 0) : weeksOf (setWeeks d v) = v := by
+  unfold setWeeks weeksOf
+  simp only []
+  split <;> split <;> omega
+
+/-! ## exact scaling (`*` / `/` by dyadic factors) and `normalized()` on integer-valued fields
+
+`Gen.mulDy / divPow2 / normalized` are translated from `__mul__` (the float factor `m / 2^k`: `int(field * f)` is the
+quotient `field·m / 2^k` truncated toward zero — exact float arithmetic while |field·m| < 2^53), `__div__` (`1 / float(other)`
+is exact for a power of two) and `normalized()` (on integers `round` / `int` are the identity and every remainder is 0).
+Fractional FIELDS, other float factors (`/ 3`, `* 0.1`) and `normalized()` of fractional fields are NOT covered here: they
+stay with the executable oracle. -/
+
+/-- **gen_scale_eq_model.** The translated `__mul__` (dyadic factor), `__div__` (power of two) and `normalized()` equal the
+    hand model and never raise. -/
+theorem gen_scale_eq_model (d : RD) (f : RDPy.Dy) (p : RDPy.Pow2) :
+    Gen.mulDy d f = .ok (mulDyadic d f.m f.k) ∧ Gen.divPow2 d p = .ok (divPow2 d p.neg p.k) ∧
+    Gen.normalized d = .ok (normalizedInt d) :=
+  ⟨RDG.mulDy_eq d f, RDG.divPow2_eq d p, RDG.normalized_eq d⟩
+
+/-- **normalized_spec.** `normalized()` of ANY integer-valued record (normal form or not, e.g. after `d.hours = 100`): the
+    result is in normal form with integer fields, keeps the duration in µs and the month count, touches no absolute field /
+    weekday / leapdays — and is the identity on values (records in normal form). -/
+theorem normalized_spec (d : RD) :
+    Normalised (normalizedInt d) ∧ usTotal (normalizedInt d) = usTotal d ∧ monthTotal (normalizedInt d) = monthTotal d ∧
+    (normalizedInt d).leapdays = d.leapdays ∧ (normalizedInt d).year = d.year ∧ (normalizedInt d).month = d.month ∧
+    (normalizedInt d).day = d.day ∧ (normalizedInt d).weekday = d.weekday ∧ (normalizedInt d).hour = d.hour ∧
+    (normalizedInt d).minute = d.minute ∧ (normalizedInt d).second = d.second ∧
+    (normalizedInt d).microsecond = d.microsecond ∧ (Normalised d → normalizedInt d = d) := by
+  obtain ⟨t1, t2, t3⟩ := fix_preserves_total { d with hasTime := 0 }
+  refine ⟨fix_bounds _, t1, t2, t3.1, t3.2.1, t3.2.2.1, t3.2.2.2.1, t3.2.2.2.2.1, t3.2.2.2.2.2.1, t3.2.2.2.2.2.2.1,
+    t3.2.2.2.2.2.2.2.1, t3.2.2.2.2.2.2.2.2, ?_⟩
+  intro h
+  unfold normalizedInt
+  have hb : Bounded { d with hasTime := 0 } := (bounded_of_normalised h : Bounded d)
+  rw [fix_of_bounded _ hb]
+  apply rd_ext <;> try rfl
+  show hasTimeOf _ = d.hasTime
+  rw [h.2.2.2.2.2]; rfl
+
+theorem normalized_spec_gen (d r : RD) (h : Gen.normalized d = .ok r) :
+    Normalised r ∧ usTotal r = usTotal d ∧ monthTotal r = monthTotal d ∧ (Normalised d → r = d) := by
+  rw [RDG.normalized_eq] at h; injection h with h; rw [← h]
+  have := normalized_spec d
+  exact ⟨this.1, this.2.1, this.2.2.1, this.2.2.2.2.2.2.2.2.2.2.2.2⟩
+
+/-- **mulDyadic_int.** For an integer factor (`k = 0`) the dyadic model is `mulInt`: `d * 3`, `d * 3.0`. -/
+theorem mulDyadic_int (d : RD) (m : Int) : mulDyadic d m 0 = mulInt d m := by
+  unfold mulDyadic mulInt scaleField
+  simp only [Int.pow_zero, RDG.tquot_one]
+
+/-- **mulDyadic_spec.** `d * (m / 2^k)` for every integer record, every `m`, every `k`: the result is in normal form
+    (integer fields); absolute fields, weekday and leapdays are untouched; and the totals are within ONE unit per field of the
+    exact rational product (each field loses less than one of its own units to the truncation toward zero):
+    |µs-total · 2^k − µs-total(d) · m| < 2^k · (1 day + 1 h + 1 min + 1 s + 1 µs),  |months · 2^k − months(d) · m| < 2^k · 13. -/
+theorem mulDyadic_spec (d : RD) (m : Int) (k : Nat) :
+    Normalised (mulDyadic d m k) ∧
+    (mulDyadic d m k).leapdays = d.leapdays ∧ (mulDyadic d m k).year = d.year ∧ (mulDyadic d m k).month = d.month ∧
+    (mulDyadic d m k).day = d.day ∧ (mulDyadic d m k).weekday = d.weekday ∧ (mulDyadic d m k).hour = d.hour ∧
+    (mulDyadic d m k).minute = d.minute ∧ (mulDyadic d m k).second = d.second ∧
+    (mulDyadic d m k).microsecond = d.microsecond ∧
+    (usTotal (mulDyadic d m k) * 2 ^ k - usTotal d * m < 2 ^ k * 90061000001 ∧
+     usTotal d * m - usTotal (mulDyadic d m k) * 2 ^ k < 2 ^ k * 90061000001) ∧
+    (monthTotal (mulDyadic d m k) * 2 ^ k - monthTotal d * m < 2 ^ k * 13 ∧
+     monthTotal d * m - monthTotal (mulDyadic d m k) * 2 ^ k < 2 ^ k * 13) := by
+  have hP : (0 : Int) < 2 ^ k := Int.pow_pos (by decide)
+  unfold mulDyadic
+  obtain ⟨t1, t2, t3⟩ := fix_preserves_total
+    { d with years := scaleField d.years m k, months := scaleField d.months m k, days := scaleField d.days m k,
+             hours := scaleField d.hours m k, minutes := scaleField d.minutes m k,
+             seconds := scaleField d.seconds m k, microseconds := scaleField d.microseconds m k, hasTime := 0 }
+  refine ⟨fix_bounds _, t3.1, t3.2.1, t3.2.2.1, t3.2.2.2.1, t3.2.2.2.2.1, t3.2.2.2.2.2.1, t3.2.2.2.2.2.2.1,
+    t3.2.2.2.2.2.2.2.1, t3.2.2.2.2.2.2.2.2, ?_, ?_⟩
+  · rw [t1]
+    unfold usTotal scaleField
+    simp only []
+    have a1 := RDG.tquot_spec (d.days * m) (2 ^ k) hP
+    have a2 := RDG.tquot_spec (d.hours * m) (2 ^ k) hP
+    have a3 := RDG.tquot_spec (d.minutes * m) (2 ^ k) hP
+    have a4 := RDG.tquot_spec (d.seconds * m) (2 ^ k) hP
+    have a5 := RDG.tquot_spec (d.microseconds * m) (2 ^ k) hP
+    generalize RDPy.tquot (d.days * m) (2 ^ k) = q1 at *
+    generalize RDPy.tquot (d.hours * m) (2 ^ k) = q2 at *
+    generalize RDPy.tquot (d.minutes * m) (2 ^ k) = q3 at *
+    generalize RDPy.tquot (d.seconds * m) (2 ^ k) = q4 at *
+    generalize RDPy.tquot (d.microseconds * m) (2 ^ k) = q5 at *
+    have e : ((((q1 * 24 + q2) * 60 + q3) * 60 + q4) * 1000000 + q5) * 2 ^ k =
+        (((q1 * 2 ^ k * 24 + q2 * 2 ^ k) * 60 + q3 * 2 ^ k) * 60 + q4 * 2 ^ k) * 1000000 + q5 * 2 ^ k := by grind
+    have e' : ((((d.days * 24 + d.hours) * 60 + d.minutes) * 60 + d.seconds) * 1000000 + d.microseconds) * m =
+        (((d.days * m * 24 + d.hours * m) * 60 + d.minutes * m) * 60 + d.seconds * m) * 1000000 + d.microseconds * m := by
+      grind
+    rw [e, e']
+    generalize q1 * 2 ^ k = p1 at *
+    generalize q2 * 2 ^ k = p2 at *
+    generalize q3 * 2 ^ k = p3 at *
+    generalize q4 * 2 ^ k = p4 at *
+    generalize q5 * 2 ^ k = p5 at *
+    generalize d.days * m = x1 at *
+    generalize d.hours * m = x2 at *
+    generalize d.minutes * m = x3 at *
+    generalize d.seconds * m = x4 at *
+    generalize d.microseconds * m = x5 at *
+    generalize (2 : Int) ^ k = P at *
+    omega
+  · rw [t2]
+    unfold monthTotal scaleField
+    simp only []
+    have a1 := RDG.tquot_spec (d.years * m) (2 ^ k) hP
+    have a2 := RDG.tquot_spec (d.months * m) (2 ^ k) hP
+    generalize RDPy.tquot (d.years * m) (2 ^ k) = q1 at *
+    generalize RDPy.tquot (d.months * m) (2 ^ k) = q2 at *
+    have e : (q1 * 12 + q2) * 2 ^ k = q1 * 2 ^ k * 12 + q2 * 2 ^ k := by grind
+    have e' : (d.years * 12 + d.months) * m = d.years * m * 12 + d.months * m := by grind
+    rw [e, e']
+    generalize q1 * 2 ^ k = p1 at *
+    generalize q2 * 2 ^ k = p2 at *
+    generalize d.years * m = x1 at *
+    generalize d.months * m = x2 at *
+    generalize (2 : Int) ^ k = P at *
+    omega
+
+/-- **mulDyadic_exact.** When every scaled field is an integer (`2^k ∣ field·m`: e.g. halving even fields, `* 1.5` of
+    even fields, `/ 4` of multiples of 4) nothing is lost: the totals are exactly `m / 2^k` times the old ones. -/
+theorem mulDyadic_exact (d : RD) (m : Int) (k : Nat)
+    (h : d.years * m % 2 ^ k = 0 ∧ d.months * m % 2 ^ k = 0 ∧ d.days * m % 2 ^ k = 0 ∧ d.hours * m % 2 ^ k = 0 ∧
+         d.minutes * m % 2 ^ k = 0 ∧ d.seconds * m % 2 ^ k = 0 ∧ d.microseconds * m % 2 ^ k = 0) :
+    usTotal (mulDyadic d m k) * 2 ^ k = usTotal d * m ∧ monthTotal (mulDyadic d m k) * 2 ^ k = monthTotal d * m := by
+  have hP : (0 : Int) < 2 ^ k := Int.pow_pos (by decide)
+  unfold mulDyadic
+  obtain ⟨t1, t2, _⟩ := fix_preserves_total
+    { d with years := scaleField d.years m k, months := scaleField d.months m k, days := scaleField d.days m k,
+             hours := scaleField d.hours m k, minutes := scaleField d.minutes m k,
+             seconds := scaleField d.seconds m k, microseconds := scaleField d.microseconds m k, hasTime := 0 }
+  rw [t1, t2]
+  unfold usTotal monthTotal scaleField
+  simp only []
+  have b1 := RDG.tquot_exact _ _ hP h.1
+  have b2 := RDG.tquot_exact _ _ hP h.2.1
+  have b3 := RDG.tquot_exact _ _ hP h.2.2.1
+  have b4 := RDG.tquot_exact _ _ hP h.2.2.2.1
+  have b5 := RDG.tquot_exact _ _ hP h.2.2.2.2.1
+  have b6 := RDG.tquot_exact _ _ hP h.2.2.2.2.2.1
+  have b7 := RDG.tquot_exact _ _ hP h.2.2.2.2.2.2
+  constructor <;> grind
+
+/-- `mulDyadic_spec` about the translated `__mul__` / `__div__` -/
+theorem mulDyadic_spec_gen (d r : RD) (f : RDPy.Dy) (p : RDPy.Pow2)
+    (h : Gen.mulDy d f = .ok r ∨ (Gen.divPow2 d p = .ok r ∧ f = RDPy.recipPow2 p)) :
+    Normalised r ∧
+    (usTotal r * 2 ^ f.k - usTotal d * f.m < 2 ^ f.k * 90061000001 ∧
+     usTotal d * f.m - usTotal r * 2 ^ f.k < 2 ^ f.k * 90061000001) ∧
+    (monthTotal r * 2 ^ f.k - monthTotal d * f.m < 2 ^ f.k * 13 ∧
+     monthTotal d * f.m - monthTotal r * 2 ^ f.k < 2 ^ f.k * 13) := by
+  have hr : r = mulDyadic d f.m f.k := by
+    rcases h with h | ⟨h, hf⟩
+    · rw [RDG.mulDy_eq] at h; injection h with h; exact h.symm
+    · rw [RDG.divPow2_eq] at h; injection h with h; rw [← h, hf]; rfl
+  rw [hr]
+  have := mulDyadic_spec d f.m f.k
+  exact ⟨this.1, this.2.2.2.2.2.2.2.2.2.2.1, this.2.2.2.2.2.2.2.2.2.2.2⟩
+
 -- non-vacuity / sanity
 example : Gen.fix { seconds := -3661, microseconds := 2500000 } =
     { hours := -1, minutes := 0, seconds := -59, microseconds := 500000, hasTime := 1 } := by decide
@@ -374,4 +637,15 @@ example : mk { yearday := some 367 } = .error .ValueError := by decide
 example : mk { yearday := some 60 } = .ok { leapdays := -1, month := some 3, day := some 1 } := by decide
 example : Normalised (neg { days := 3, hours := -5, hasTime := 1 }) := (every_op_normalised _ {} 0 {} 0 0 0).2.2.1
 
+example : (RDH.run { days := 10 } [.use (.addDt ⟨.date, { y := 2000, m := 1, d := 1 }⟩), .set (.weeks 3), .use .hash,
+    .set (.hours 5), .use (.addDt ⟨.date, { y := 2000, m := 1, d := 1 }⟩)]).1 = { days := 24, hours := 5 } := by decide +kernel
+example : (RDH.run { days := 10 } [.use (.addDt ⟨.date, { y := 2000, m := 1, d := 1 }⟩), .set (.weeks 3),
+    .use (.addDt ⟨.date, { y := 2000, m := 1, d := 1 }⟩)]).2 =
+    [.temporal (.ok ⟨.date, { y := 2000, m := 1, d := 11 }⟩), .temporal (.ok ⟨.date, { y := 2000, m := 1, d := 25 }⟩)] := by
+  decide +kernel
+example : mulDyadic { days := 3, hours := 5, years := 1, months := 2 } 1 1 = { days := 1, hours := 2, months := 1, hasTime := 1 } := by
+  decide +kernel     -- relativedelta(years=1, months=2, days=3, hours=5) * 0.5 (every field truncated toward zero)
+example : divPow2 { days := -7, minutes := 90 } true 1 = { days := 3, minutes := -45, hasTime := 1 } := by decide +kernel
+example : normalizedInt { hours := 100, minutes := -61, hasTime := 0 } = { days := 4, hours := 3, minutes := -1, hasTime := 1 } := by
+  decide +kernel
 end C16
